@@ -1,6 +1,7 @@
 """ Module for VariantPeptideIdentifier """
 from __future__ import annotations
 from abc import ABC, abstractmethod
+import re
 from typing import Dict, List, TYPE_CHECKING, Set
 from moPepGen import VARIANT_PEPTIDE_SOURCE_DELIMITER
 from moPepGen.constant import VariantPrefix
@@ -247,8 +248,9 @@ class BaseVariantPeptideIdentifier(VariantPeptideIdentifier):
 
     def is_alternative_splicing(self) -> bool:
         """ Whether this variant peptide has any alternative splicing events """
-        alt_splice_types = ['SE', 'A5SS', 'A3SS', 'RI', 'MXE']
-        return any(any(y in x for y in alt_splice_types) for x in self.variant_ids)
+        alt_splice_types = {'SE', 'A5SS', 'A3SS', 'RI', 'MXE'}
+        return any(alt_splice_types.intersection(re.split('[-_]', x))
+            for x in self.variant_ids)
 
 class CircRNAVariantPeptideIdentifier(VariantPeptideIdentifier):
     """ circRNA variant peptide identifier for output FASTA header """
